@@ -22,7 +22,7 @@ let allowed (last : string) (endk : string) : string list =
   | "err:prefixtrunc" -> [ "eof"; "ueof"; "injected"; "op" ]
   | "err:prefix" -> [ "codec" ]
   | "err:pktlen" | "err:pkthdr" -> [ "packetizer" ]
-  | "err:trunc" -> [ "ueof"; "injected"; "op" ]
+  | "err:trunc" -> [ "ueof"; "injected"; "op"; "decode" ]   (* decoded as far as it goes: the decoder may reject what is there before the bytes run out (see Dec.matches) *)
   | "err:decode" -> [ "decode" ]
   | _ -> []
 
